@@ -180,3 +180,111 @@ Proof.
 Qed.
 
 End Safe.
+
+(** * Values of the operators on statically known operands *)
+
+Section Inv.
+Variable d : dialect.
+
+(** agreement of the two string->number coercions (discharged in [EvaluatorCoercion]) *)
+Hypothesis coercion_agrees : forall s x y,
+  str2num s = Some x -> number_coercion (LString s) = LNumber y -> y = x /\ valid x.
+
+Lemma num_coerce_ok s0 s la a x y :
+  lv_ok s0 s la a -> number_coercion la = LNumber x -> tonum a = Some y -> x = y /\ valid x.
+Proof.
+  intros H E T. destruct la; try discriminate E.
+  - cbn in E. injection E as <-. destruct a; try contradiction. cbn in H, T.
+    destruct H as [-> Hv]. injection T as <-. auto.
+  - destruct a; try contradiction. cbn in H. subst s1. cbn in T.
+    destruct (coercion_agrees _ _ _ T E) as [-> Hv]. auto.
+Qed.
+
+Lemma math_arith op x y z : valid x -> valid y ->
+  (op = BMod -> d = Luau -> same_f64 (fmod_51 x y) (fmod_luau x y) = true) ->
+  arith_num d op x y = Some z ->
+  match math_op op x y with Some z' => z' = z /\ valid z | None => True end.
+Proof.
+  intros Hx Hy Hm. destruct op; cbn [arith_num math_op]; try discriminate;
+    try (intros E; injection E as <-; split; [reflexivity|]).
+  - now apply valid_fadd.
+  - now apply valid_fsub.
+  - now apply valid_fmul.
+  - now apply valid_fdiv.
+  - apply valid_ffloor. now apply valid_fdiv.
+  - intros E; injection E as <-. rewrite (fmul_comm y). fold (fmod_51 x y).
+    destruct d.
+    + split; [reflexivity|]. now apply valid_fmod_51.
+    + split; [|now apply valid_fmod_luau].
+      apply to_bits_inj; auto using valid_fmod_51, valid_fmod_luau.
+  - intros E. rewrite E. split; [reflexivity|]. eapply valid_fpow; eauto.
+Qed.
+
+Lemma eq_ok s0 s1 s2 la lb a b :
+  lv_ok s0 s1 la a -> lv_ok s1 s2 lb b -> la <> LUnknown -> lb <> LUnknown ->
+  evaluate_equal la lb = lv_of_bool (raw_equal a b).
+Proof.
+  intros Ha Hb Ka Kb.
+  destruct la; try congruence; destruct a; cbn in Ha; try contradiction;
+  destruct lb; try congruence; destruct b; cbn in Hb; try contradiction;
+  repeat match goal with
+         | H : match ?c with true => _ | false => _ end |- _ => destruct c; try contradiction
+         end; cbn; try reflexivity.
+  - destruct Ha as [-> _], Hb as [-> _]. reflexivity.
+  - subst. reflexivity.
+  - (* closures *) assert (a <> a0) by (intros ->; lia).
+    apply N.eqb_neq in H. rewrite H. reflexivity.
+  - (* tables *) destruct Ha as [_ (t & Ht & _)]. apply nth_N_lt in Ht. destruct Hb as [Hb _].
+    assert (a <> a0) by (intros ->; lia).
+    apply N.eqb_neq in H. rewrite H. reflexivity.
+Qed.
+
+Lemma binop_ok n op la lb a b s0 s1 s2 vs s3 :
+  is_andor op = false ->
+  lv_ok s0 s1 la a -> lv_ok s1 s2 lb b -> la <> LUnknown -> lb <> LUnknown ->
+  store_extends s0 s1 -> store_extends s1 s2 -> strmeta_plain s2 ->
+  op_safe d op la lb ->
+  binop_sem d n op a b s2 = Ok vs s3 ->
+  s3 = s2 /\ lv_ok s0 s2 (lv_binop op la lb) (first vs).
+Proof.
+  intros Hop Ha Hb Ka Kb E01 E12 Hs [Hcat Hmod] H.
+  assert (lv_ok s0 s2 la a) as Ha2 by (eapply lv_ok_mono; [apply store_extends_refl|exact E12|exact Ha]).
+  assert (lv_ok s0 s2 lb b) as Hb2 by (eapply lv_ok_mono; [exact E01|apply store_extends_refl|exact Hb]).
+  pose proof (lv_ok_plain _ _ _ _ Ha2 Ka) as Pa. pose proof (lv_ok_plain _ _ _ _ Hb2 Kb) as Pb.
+  assert (forall c s, lv_ok s0 s (lv_of_bool c) (VBool c)) as Hbool by (intros; apply lv_ok_bool).
+  destruct op; try discriminate Hop; cbn [binop_sem lv_binop] in *.
+  - (* == *) inv_ok H. subst. apply equal_plain in H0 as [-> ->]; auto. split; auto.
+    rewrite (eq_ok _ _ _ _ _ _ _ Ha Hb Ka Kb). apply Hbool.
+  - (* ~= *) inv_ok H. subst. apply equal_plain in H0 as [-> ->]; auto. split; auto.
+    rewrite (eq_ok _ _ _ _ _ _ _ Ha Hb Ka Kb). destruct (raw_equal a b); exact I.
+  - (* < *) inv_ok H. subst. apply less_plain in H0 as [-> [(x & y & -> & -> & ->)|(x & y & -> & -> & ->)]]; auto;
+      (split; [reflexivity|]);
+      destruct la; cbn in Ha2; try contradiction; destruct lb; cbn in Hb2; try contradiction.
+    + destruct Ha2 as [-> _], Hb2 as [-> _]. apply Hbool.
+    + subst. apply Hbool.
+  - (* <= *) inv_ok H. subst. apply less_plain in H0 as [-> [(x & y & -> & -> & ->)|(x & y & -> & -> & ->)]]; auto;
+      (split; [reflexivity|]);
+      destruct la; cbn in Ha2; try contradiction; destruct lb; cbn in Hb2; try contradiction.
+    + destruct Ha2 as [-> _], Hb2 as [-> _]. apply Hbool.
+    + subst. apply Hbool.
+  - (* > *) inv_ok H. subst. apply less_plain in H0 as [-> [(x & y & -> & -> & ->)|(x & y & -> & -> & ->)]]; auto;
+      (split; [reflexivity|]);
+      destruct la; cbn in Ha2; try contradiction; destruct lb; cbn in Hb2; try contradiction.
+    + destruct Ha2 as [-> _], Hb2 as [-> _]. apply Hbool.
+    + subst. apply Hbool.
+  - (* >= *) inv_ok H. subst. apply less_plain in H0 as [-> [(x & y & -> & -> & ->)|(x & y & -> & -> & ->)]]; auto;
+      (split; [reflexivity|]);
+      destruct la; cbn in Ha2; try contradiction; destruct lb; cbn in Hb2; try contradiction.
+    + destruct Ha2 as [-> _], Hb2 as [-> _]. apply Hbool.
+    + subst. apply Hbool.
+  - admit.
+  - admit.
+  - admit.
+  - admit.
+  - admit.
+  - admit.
+  - admit.
+  - admit.
+Admitted.
+
+End Inv.
